@@ -695,7 +695,7 @@ type sysFamily struct {
 	n, u        int
 	reversed    bool // union reference pairs also in descending order
 	unionRefMax int
-	interMax    int // max arity of an intersection
+	interMax    int   // max arity of an intersection
 	bufs        []int // NewClosure(bufSize) values; nil = bufSizes
 }
 
@@ -958,8 +958,9 @@ type summary struct {
 	Outcomes   map[string]int64 `json:"outcomes"`
 	Viol       []*vrec          `json:"viol,omitempty"`
 	Sample     *tcase           `json:"sample,omitempty"`
-	Stopped    bool             `json:"stopped,omitempty"` // soft budget reached before this block
-	Hang       bool             `json:"hang,omitempty"`    // the worker gave up at a case that never returned
+	Stopped    bool             `json:"stopped,omitempty"`   // soft budget reached before this block
+	Abandoned  bool             `json:"abandoned,omitempty"` // shard given up after a worker death (see worker)
+	Hang       bool             `json:"hang,omitempty"`      // the worker gave up at a case that never returned
 }
 
 // hangAfter: a case (microseconds of work) that has not returned after this long is reported as a
@@ -1025,6 +1026,14 @@ func worker(w *core.Worker) {
 		}
 		if w.Only < 0 && !deadline.IsZero() && time.Now().After(deadline) {
 			w.Emit(summary{Block: idx, Stopped: true})
+			continue
+		}
+		if w.Only < 0 && w.Start > 0 {
+			// This worker is the restart after a death in this shard. The death is reported with its
+			// exact case and the run fails anyway; when the defect is systematic nearly every block dies
+			// and each death costs three process starts, so the rest of the shard is given up (recorded
+			// as not exhaustive) instead of being ground through.
+			w.Emit(summary{Block: idx, Abandoned: true})
 			continue
 		}
 		w.Case(idx, b.desc)
@@ -1109,7 +1118,7 @@ func run(c *core.Ctx) {
 	viol := map[string]*best{}
 	seen := make([]bool, len(blocks))
 	var evals, closureEvals int64
-	stopped, hangs := 0, 0
+	stopped, hangs, abandoned := 0, 0, 0
 	c.RunShards(core.ShardOpts{
 		N:       16,
 		Env:     []string{"GOMAXPROCS=1", "GOGC=400"}, // 16 single-threaded workers: concurrent GC helpers only fight for the cores
@@ -1124,6 +1133,10 @@ func run(c *core.Ctx) {
 			}
 			if s.Stopped {
 				stopped++
+				return
+			}
+			if s.Abandoned {
+				abandoned++
 				return
 			}
 			if s.Hang {
@@ -1230,6 +1243,10 @@ func run(c *core.Ctx) {
 		if !s {
 			missing++
 		}
+	}
+	if abandoned > 0 {
+		c.Capped(fmt.Sprintf("%d of %d blocks not run: their shard was given up after a worker death", abandoned, len(blocks)))
+		missing -= abandoned
 	}
 	if hangs > 0 {
 		c.Capped(fmt.Sprintf("%d worker(s) ended their shard at a hanging case; %d of %d blocks not run", hangs, missing, len(blocks)))
